@@ -528,6 +528,15 @@ func ruleNumErrValue(c *Ctx) []Obligation {
 							if resolveSpill(res, u) == ssa.Value(errv) || res == ssa.Value(errv) {
 								pair = true
 							}
+							// … or joined with the error of the other converter (`if decimal { n, err = A() } else
+							// { n, err = B() }; …; return n, err`): the error result is a phi one of whose edges it is
+							if phi, isP := resolveSpill(res, u).(*ssa.Phi); isP && isErrorType(phi.Type()) {
+								for _, e := range phi.Edges {
+									if e == ssa.Value(errv) {
+										pair = true
+									}
+								}
+							}
 						}
 						if pair || errNil(u.Block()) {
 							continue
